@@ -107,7 +107,9 @@ structure Flags where
   constScriptcode : Bool := false
   deriving DecidableEq, Repr
 
-/-- Bit positions of the flags in the protocol line = btcd's `ScriptFlags` numbering (pinned in Props). -/
+/-- Bit positions of the flags in the protocol line: the protocol's own numbering (the harness translates from
+and to btcd's named `ScriptFlags` constants; btcd's in-memory bit values are never used). The names are the Go
+constant names, for the reader only. -/
 def flagBits : List (String × Nat) := [
   ("ScriptBip16", 0), ("ScriptStrictMultiSig", 1), ("ScriptDiscourageUpgradableNops", 2),
   ("ScriptVerifyCheckLockTimeVerify", 3), ("ScriptVerifyCheckSequenceVerify", 4),
